@@ -183,6 +183,11 @@ def gen_C09(g, tier):
         scale = 10 ** g.r.uniform(-20, 20) if k < 0.3 else (g.choice([1e90, 1e-90, 1e120, 1e-120, 1e60, 1e-60, 2.0 ** 400, 2.0 ** -400]) if k < 0.45 else 1.0)
         a = [x * scale for x in a]
         cs.append(Case('o.c09.polard %s' % hexes(a), 'orc', 'double-polar-' + kind, check=flags_then_small(1, 1e-12)))
+    # the process-wide polarisation basis set to circular / elliptical while polar, sqrt and eigen are called
+    for _ in range(8 if tier == 'quick' else 200):
+        a = [g.r.uniform(-2, 2) for _ in range(8)]
+        b = g.choice(['cir', 'ell %s %s' % (dhex(g.r.uniform(-1.5, 1.5)), dhex(g.r.uniform(-0.7, 0.7))), 'ell %s %s' % (dhex(0.25 * math.pi), dhex(0.25 * math.pi))])
+        cs.append(Case('o.c09.polarb %s %s' % (b, hexes(a)), 'orc', 'basis-set-to-non-linear'))
     return cs
 
 
